@@ -24,24 +24,32 @@ TOL_TOK = '1/1000000000'
 TOL32 = Fraction(2, 10 ** 5)            # DESIGN 8: float32 paths
 TOL32_TOK = '1/50000'
 CAST = {'float': 'float64', 'float64': 'float64', 'float32': 'float32', 'int': 'int', 'int64': 'int'}
-ERRORS = (ValueError, IndexError, TypeError, KeyError, ZeroDivisionError, AttributeError, NotImplementedError)
+# every exception class of the implementation is an answer to compare (RecursionError of a broken _adjoint, RuntimeError,
+# OverflowError ...), never a failure of the tool; ToolFailure itself is re-raised before every `except ERRORS`
+ERRORS = (Exception,)
 
 RULE = ('random operator expressions (depth <= 4 quick, <= 5 thorough) over SparseLR / Regularizer / Normalizer / '
         'Laplacian / CoNeighbor / Polynome leaves on random rectangular sparse matrices (null rows and columns, '
-        'negative and explicit-zero entries, duplicate and unsorted CSR storage) of dtype float64, float32, int32, int64 and '
-        'bool, integer entries with a share of dyadic, non-dyadic and negative regularisations; operations: negation, sum, '
-        'difference, scaling from the right and from the left (c * op), transposition (also of scipy sum / scaled operators), '
+        'negative and explicit-zero entries, duplicate and unsorted CSR storage) of dtype float64, float32, int32, int64, '
+        'bool and int8 / uint8 / int16 with values at the bounds of the type, integer entries with a share of dyadic, non-dyadic and negative regularisations; operations: negation, sum, '
+        'difference, scaling from the right and from the left (c * op), division by a scalar (op / c), transposition (also of scipy sum / scaled operators), '
         'sparse products, astype to float64 / float32 / int (truncating the stored parts), normalize, format conversions; '
         'every expression is queried with stored probes (float64, int64, bool, float32 vectors and 2-d arrays) through '
         'dot, matvec, @, matmat, a direct 2-d _matvec, .T.dot, .H.dot, rmatvec, rmatmat, shape, class, and summed along '
         'both axes when it is a SparseLR; a share of the expressions is built on the original arguments, which must be '
         'unchanged afterwards; a share of ill-shaped expressions checks the errors (same exception class required); '
         'exhaustive 0/1 matrices of shape <= 2x2 for every leaf class; zero-sized dimensions and 2-d arrays without columns; '
+        'the six classes on csc / coo / lil matrices and normalize / get_norms / get_laplacian / get_weights on csc / coo '
+        'matrices; not generated: op ** k, products of two operators (op * op, op.dot(op)); '
         'programs (DAGs) over operator OBJECTS of all six classes in which the same object takes part in several operations '
         '(sum, difference, both scalings, negation, transposition, sparse products, astype, conversions) and is used again: '
         'after every statement the operands and the result are re-evaluated against their own denotation ("operand unchanged"); '
         'utilities on the same matrices (format conversions and tf-idf judged by their documented definitions written '
         'entry by entry, D2USpec / B2DSpec / B2USpec / TfidfSpec), label vectors with negatives and gaps, scores with ties; '
+        'get_norms, from_membership(matrix), normalize(p=3), the dtype rule of directed2undirected and the class of a result '
+        'have run lines only (their models are the definitions); known finding F16i: the in-place model (Op.shared, the '
+        'in-place tree of an operand) is compared with the implementation per case and per query, and the finding is matched '
+        'only where they agree; '
         'a case is non-trivial when the matrix has a stored entry (labels: a non-negative label; scores: >= 2 scores); '
         'distinct = distinct (entry point, expression / arguments, query, probe)')
 ASSUMPTIONS = [
@@ -53,9 +61,16 @@ ASSUMPTIONS = [
     'enter the model as data, with the contract sqrt(x)^2 = x, log checked against math.log in Python within TOL',
     'np.argsort / np.argpartition return some sorting / partitioning permutation (top_k compared up to ties through TopKSpec)',
     'dense ndarray adjacency arguments of the operator classes are covered by C01, not here',
+    'sparse formats: the utilities are called with csr_matrix arguments as their signatures say (get_neighbors / get_degrees read '
+    'indptr / indices: on a csc matrix they return the column structure; get_norms / normalize / get_tfidf raise on a lil matrix); '
+    'other formats are exercised where the code converts (the six classes: csc, coo, lil) or only uses scipy algebra '
+    '(normalize, get_norms, get_laplacian, get_weights: csc, coo); csr_array and the other array classes are refused by the library',
+    'top_k: float scores and k >= 0 (a boolean score vector raises on -scores, a negative k slices from the end)',
     'domain: a Normalizer has at least one column and a Laplacian at least one node (the definitions divide by the number of '
     'columns); matrices whose stored entries are all explicit zeros are not built for CoNeighbor / Polynome (Mat has no '
-    'notion of stored entries); float32 rounding is outside the rational model (tolerance 2e-5 on those paths); astype(int) '
+    'notion of stored entries); float32 rounding is outside the rational model (tolerance 2e-5 where float32 arithmetic can '
+    'round: a float32 operand or probe together with a division, a power, a number that is not a small multiple of 1/8 or more '
+    'than two products in a row; float64 tolerance elsewhere); astype(int) '
     'is compared with the specification only where the stored parts are integers (cast of the parts, not of the matrix)',
 ]
 
@@ -99,14 +114,19 @@ def enc_csr_arrays(m):
 
 
 def mat_desc(a):
+    fmt = a.format if sparse.issparse(a) else 'csr'
     a = sparse.csr_matrix(a) if not sparse.issparse(a) else a.tocsr()
-    return {'shape': list(a.shape), 'indptr': a.indptr.tolist(), 'indices': a.indices.tolist(),
-            'data': [float(x) for x in a.data], 'dtype': str(a.dtype)}
+    d = {'shape': list(a.shape), 'indptr': a.indptr.tolist(), 'indices': a.indices.tolist(),
+         'data': [float(x) for x in a.data], 'dtype': str(a.dtype)}
+    if fmt != 'csr':
+        d['format'] = fmt                     # the argument was a csc / coo / lil matrix
+    return d
 
 
 def mat_from_desc(d):
-    return sparse.csr_matrix((np.array(d['data'], dtype=d.get('dtype', 'float64')), np.array(d['indices'], dtype=np.int32),
-                              np.array(d['indptr'], dtype=np.int32)), shape=tuple(d['shape']))
+    a = sparse.csr_matrix((np.array(d['data'], dtype=d.get('dtype', 'float64')), np.array(d['indices'], dtype=np.int32),
+                           np.array(d['indptr'], dtype=np.int32)), shape=tuple(d['shape']))
+    return a.asformat(d['format']) if d.get('format', 'csr') != 'csr' else a
 
 
 def dec_mat(tokens):
@@ -163,6 +183,8 @@ def build(e):
         return build(e[1]) * e[2]
     if op == 'rmul':
         return e[1] * build(e[2])
+    if op == 'div':
+        return build(e[1]) / e[2]                 # scipy: _ScaledLinearOperator(self, 1.0 / c) for every class
     if op == 'T':
         return build(e[1]).T
     if op == 'ldot':
@@ -212,6 +234,8 @@ def enc_expr(e):
         return 'astype %s %s' % (CAST[e[2]], enc_expr(e[1]))
     if op == 'rmul':
         return 'rmul %s %s' % (enc_rat(frac(e[1])), enc_expr(e[2]))
+    if op == 'div':
+        return 'rmul %s %s' % (enc_rat(frac(1.0 / e[2])), enc_expr(e[1]))      # the float 1.0 / c, as the code computes it
     if op in ('add', 'sub'):
         return '%s %s %s' % (op, enc_expr(e[1]), enc_expr(e[2]))
     if op in ('addcsr', 'subcsr'):
@@ -282,6 +306,47 @@ def uses_float32(e):
     if e[0] == 'astype' and e[2] == 'float32':
         return True
     return any(uses_float32(x) for x in sub_exprs(e))
+
+
+def _small_dyadic(v):
+    v = np.asarray(v, dtype=float).ravel()
+    return bool(np.all(v * 8 == np.round(v * 8)) and np.all(np.abs(v) <= 64)) if len(v) else True
+
+
+def float32_exact(e, depth=0):
+    """True when float32 arithmetic on this expression is exact: every number in it is a multiple of 1/8 of size <= 64,
+    no normalising or regularised class / operation (divisions), no Polynome (powers), no division, at most two products
+    in a row."""
+    op = e[0]
+    if op in ('nrm', 'pol', 'normalize', 'div') or (op == 'con' and e[2]) or (op == 'lap' and (e[3] or e[2] != 0)) \
+            or (op == 'reg' and e[2] != 0):
+        return False                        # divisions: by the degrees, by n_col (regularisation, mean of the vector)
+    if op in ('mul', 'rmul', 'ldot', 'rdot', 'con'):
+        depth += 1
+        if depth > 2:
+            return False
+    for x in e[1:]:
+        if isinstance(x, tuple) and x and isinstance(x[0], str):
+            if not float32_exact(x, depth):
+                return False
+        elif sparse.issparse(x):
+            if not _small_dyadic(x.tocsr().data):
+                return False
+        elif isinstance(x, list) and x and isinstance(x[0], tuple):
+            if not all(_small_dyadic(t[0]) and _small_dyadic(t[1]) for t in x):
+                return False
+        elif isinstance(x, (int, float, np.integer, np.floating)) and not isinstance(x, (bool, np.bool_)):
+            if not _small_dyadic([x]):
+                return False
+    return True
+
+
+def tolerance_for(tree, x=None):
+    """(tol, token): the float32 tolerance only where float32 arithmetic can round (DESIGN 8), the float64 one elsewhere."""
+    f32 = uses_float32(tree) or (x is not None and x.dtype == np.float32)
+    if f32 and not (float32_exact(tree) and (x is None or _small_dyadic(x))):
+        return TOL32, TOL32_TOK
+    return TOL, TOL_TOK
 
 
 def int_casts_exact(e):
@@ -365,12 +430,14 @@ ENTRY = {'slr': 'SparseLR', 'reg': 'Regularizer', 'nrm': 'Normalizer', 'lap': 'L
 # ----------------------------------------------------------------------------------------------
 # random inputs
 # ----------------------------------------------------------------------------------------------
-MATRIX_DTYPES = ['float64', 'float64', 'float64', 'float64', 'bool', 'int32', 'int64', 'float32']
+MATRIX_DTYPES = ['float64', 'float64', 'float64', 'float64', 'bool', 'int32', 'int64', 'float32', 'int8', 'uint8', 'int16']
+# narrow integer types: values at the bounds of the type (|x|, x**2, sums of a row leave the type)
+BOUNDS = {'int8': [100, 127, -128, 1, -1, 64], 'uint8': [100, 200, 255, 1, 128], 'int16': [32767, -32768, 1, 300, -200]}
 
 
 def rand_matrix(rng, r, c, mode=None, density=None, dtype=None):
     """Random r x c csr matrix; modes: 'nonneg' (0..3), 'signed' (-2..3), 'binary', 'messy' (explicit zeros,
-    unsorted indices), 'dups' (duplicate entries), 'dyadic' (halves); dtype: float64 / float32 / int32 / int64 / bool
+    unsorted indices), 'dups' (duplicate entries), 'dyadic' (halves); dtype: float64 / float32 / int8 / uint8 / int16 / int32 / int64 / bool
     (integer-valued modes only; no bool with duplicate entries: scipy adds them up as booleans, a float cast as numbers)."""
     mode = mode or rng.choice(['nonneg', 'nonneg', 'signed', 'binary', 'messy', 'dups', 'dyadic'])
     dtype = dtype or rng.choice(MATRIX_DTYPES)
@@ -378,6 +445,16 @@ def rand_matrix(rng, r, c, mode=None, density=None, dtype=None):
         dtype = 'float32' if dtype == 'int32' else 'float64'
     if mode == 'dups' and dtype == 'bool':
         dtype = 'int64'
+    if dtype in BOUNDS:
+        if mode == 'dyadic':
+            dtype = 'float64'
+        elif mode == 'dups':
+            mode = 'messy'                  # scipy adds duplicates up inside the narrow type: outside "the matrix"
+        elif mode == 'signed' and dtype == 'uint8':
+            mode = 'nonneg'
+    bounds = BOUNDS.get(dtype) if rng.random() < 0.6 else None
+    if bounds is not None and mode in ('nonneg', 'messy'):
+        bounds = [v for v in bounds if v > 0]
     density = density if density is not None else rng.choice([0.25, 0.5, 0.8])
     null_rows = {i for i in range(r) if rng.random() < 0.2}
     null_cols = {j for j in range(c) if rng.random() < 0.15}
@@ -386,7 +463,9 @@ def rand_matrix(rng, r, c, mode=None, density=None, dtype=None):
         for j in range(c):
             if i in null_rows or j in null_cols or rng.random() >= density:
                 continue
-            if mode == 'binary':
+            if bounds is not None and mode != 'binary':
+                v = rng.choice(bounds)
+            elif mode == 'binary':
                 v = 1
             elif mode == 'signed':
                 v = rng.choice([-2, -1, 1, 2, 3])
@@ -538,6 +617,32 @@ SCALARS = [2, -1, 3, 0.5, 0, -2, 1.5]
 TIE_SKIPPED = [0]
 
 
+def has_tiny_row_sum(o):
+    """A row sum in (0, 1e-6 * scale): zero exactly or not, float64 cannot tell, and `normalize` decides on `== 0`."""
+    try:
+        sums = np.asarray(o.dot(np.ones(o.shape[1])), dtype=float)
+    except ToolFailure:
+        raise
+    except ERRORS:
+        return False                        # the product itself is refused: the cases will report it
+    scale = 1 + float(np.max(np.abs(sums))) if len(sums) else 1.0
+    return bool(np.any((np.abs(sums) > 0) & (np.abs(sums) < 1e-6 * scale)))
+
+
+def tie_skip_selftest(ctx):
+    """The two tie-skips are rare in the random streams: one fixed operand per skip shows that the test fires (and one that
+    it does not fire on a harmless operand)."""
+    from sknetwork.linalg import SparseLR
+    tiny = SparseLR(sparse.csr_matrix(np.array([[0.1, 0.2, -0.3], [1.0, 0.0, 0.0]])), [])
+    plain = SparseLR(sparse.csr_matrix(np.array([[1.0, 2.0, -3.0], [1.0, 0.0, 0.0]])), [])
+    near = SparseLR(sparse.csr_matrix(np.array([[3 * 0.1 * 10, 1.0]])), [])           # 3.0000000000000004
+    if not has_tiny_row_sum(tiny) or has_tiny_row_sum(plain):
+        raise ToolFailure('tie-skip self-test: the tiny-row-sum test does not separate [0.1, 0.2, -0.3] from [1, 2, -3]')
+    if int_cast_status(near) != 'unsafe' or int_cast_status(plain) != 'exact':
+        raise ToolFailure('tie-skip self-test: int_cast_status(%r) = %s' % (near.sparse_mat.data.tolist(), int_cast_status(near)))
+    ctx.count('tie-skip:self-test', 2)
+
+
 def astype_stmt(rng, o):
     """(dtype, exact) for a type change of the operator `o`, or None when the integer cast would be a discrete decision
     on a rounded number (a stored part within 1e-6 of an integer without being one: tie-skipped)."""
@@ -555,6 +660,8 @@ def try_build(e):
     try:
         o = build(e)
         return o, None
+    except ToolFailure:
+        raise
     except ERRORS as ex:
         return None, type(ex).__name__
 
@@ -569,7 +676,7 @@ def grow(rng, e, depth, bad_rate=0.06):
         shape = tuple(o.shape)
         bad = rng.random() < bad_rate
         if kind == 'slr':
-            ops = ['neg', 'add', 'sub', 'addcsr', 'subcsr', 'mul', 'rmul', 'T', 'ldot', 'rdot', 'astype', 'astype',
+            ops = ['neg', 'add', 'sub', 'addcsr', 'subcsr', 'mul', 'rmul', 'div', 'T', 'ldot', 'rdot', 'astype', 'astype',
                    'normalize', 'add', 'sub', 'T', 'ldot', 'rdot']
             if shape[0] + shape[1] <= 10:
                 ops += ['b2d', 'b2u']            # the block forms double the size: at most twice in a row
@@ -578,26 +685,21 @@ def grow(rng, e, depth, bad_rate=0.06):
             if bad:
                 ops += ['addgen']
         elif kind == 'pol':
-            ops = ['neg', 'mul', 'rmul', 'T', 'T', 'gadd', 'gsub']
+            ops = ['neg', 'mul', 'rmul', 'div', 'T', 'T', 'gadd', 'gsub']
         elif kind == 'con':
-            ops = ['neg', 'mul', 'rmul', 'T', 'T', 'ldot', 'rdot', 'astype', 'astype', 'normalize', 'gadd', 'gsub']
+            ops = ['neg', 'mul', 'rmul', 'div', 'T', 'T', 'ldot', 'rdot', 'astype', 'astype', 'normalize', 'gadd', 'gsub']
         elif kind in ('nrm', 'nrmT'):
-            ops = ['T', 'T', 'neg', 'mul', 'rmul', 'gadd', 'gsub']
+            ops = ['T', 'T', 'neg', 'mul', 'rmul', 'div', 'gadd', 'gsub']
         elif kind == 'lap':
-            ops = ['T', 'T', 'astype', 'astype', 'neg', 'mul', 'rmul', 'gadd', 'gsub']
+            ops = ['T', 'T', 'astype', 'astype', 'neg', 'mul', 'rmul', 'div', 'gadd', 'gsub']
         else:
-            ops = ['neg', 'mul', 'rmul', 'gadd', 'gsub', 'T', 'T']     # scipy's combinators: transposed as well
+            ops = ['neg', 'mul', 'rmul', 'div', 'gadd', 'gsub', 'T', 'T']     # scipy's combinators: transposed as well
         op = rng.choice(ops)
         if op == 'normalize':
             # DESIGN 8, discrete decisions on numbers: the pseudo-inverse tests `weight == 0`; a row sum that is zero
             # exactly but not in float64 (cancellation of non-dyadic terms) would be inverted by the code: such
             # operands are not normalised (counted as tie-skipped)
-            try:
-                sums = np.asarray(o.dot(np.ones(shape[1])), dtype=float)
-            except ERRORS:
-                sums = np.zeros(0)          # the product itself is refused: the cases below will report it
-            scale = 1 + float(np.max(np.abs(sums))) if len(sums) else 1.0
-            if np.any((np.abs(sums) > 0) & (np.abs(sums) < 1e-6 * scale)):
+            if has_tiny_row_sum(o):
                 TIE_SKIPPED[0] += 1
                 continue
         if op in ('neg', 'T', 'd2u', 'b2d', 'b2u', 'normalize'):
@@ -611,6 +713,8 @@ def grow(rng, e, depth, bad_rate=0.06):
             e = ('mul', e, rng.choice(SCALARS))
         elif op == 'rmul':
             e = ('rmul', rng.choice(SCALARS), e)
+        elif op == 'div':
+            e = ('div', e, rng.choice([2, -4, 0.5, 3, 8]))
         elif op in ('add', 'sub'):
             shp = (shape[0] + 1, shape[1]) if bad else shape
             other = grow(rng, rand_leaf(rng, rng.choice(['slr', 'slr', 'reg']), shp), rng.randint(0, 1), 0.0)
@@ -658,6 +762,8 @@ def _ok_mat(y):
 def _call(f):
     try:
         return f()
+    except ToolFailure:
+        raise
     except ERRORS as ex:
         return 'err ' + type(ex).__name__
 
@@ -731,13 +837,33 @@ def apply_query(o, qs):
     raise ToolFailure('unknown query %r' % (q,))
 
 
+def query_run_line(tree, qs):
+    """The run line (model of the code) of query `qs` on the operator the expression `tree` denotes."""
+    q = qs['query']
+    et = enc_expr(tree)
+    tt = ('T ' + et) if q in TRANSPOSED else et
+    x = probe_from_desc(qs['x']) if 'x' in qs else None
+    if q in VEC_QUERIES:
+        return ('c15.hdot %s %s' % (et, enc_vec(x))) if q == 'H.dot' else ('c15.dot %s %s' % (tt, enc_vec(x)))
+    if q in MAT_QUERIES:
+        return '%s %s %s' % ('c15.mv2d' if q == 'matvec2d' else 'c15.dotmat', tt, enc_dense(x))
+    if q in SUM_QUERIES:
+        return 'c15.sum %s %s' % (et, {'sum0': '0', 'sum1': '1', 'sum': '2'}[q])
+    if q in ('shape', 'construct'):
+        return 'c15.shape ' + et
+    if q == 'type':
+        return 'c15.type ' + et
+    if q == 'd2u_unweighted':
+        return 'c15.d2u_unweighted ' + et
+    raise ToolFailure('unknown query %r' % (q,))
+
+
 def make_case(tree, qs, sig, desc, nontriv, o=None, build_error=None):
     """One Case: the query `qs` on the object `o` (built from `tree` when None) against the model / specification of `tree`."""
     q = qs['query']
     et = enc_expr(tree)
     x = probe_from_desc(qs['x']) if 'x' in qs else None
-    f32 = uses_float32(tree) or (x is not None and x.dtype == np.float32)
-    tol, tol_tok = (TOL32, TOL32_TOK) if f32 else (TOL, TOL_TOK)
+    tol, tol_tok = tolerance_for(tree, x)
     spec_ok = int_casts_exact(tree)
     kind = [None]
 
@@ -822,6 +948,8 @@ def inputs_unchanged(ctx, e):
             if hasattr(o, 'shape') and len(o.shape) == 2:
                 o.dot(np.ones(o.shape[1]))
                 o.T.dot(np.ones(o.shape[0]))
+        except ToolFailure:
+            raise
         except ERRORS:
             pass
     finally:
@@ -877,17 +1005,19 @@ def cases_shared(ctx, rng, leaf, only=None, x=None):
         xv = x if x is not None else rand_vec(rng, n, 'int')
         impl = _call(lambda: _ok_vec(f(build(leaf)).dot(xv)))
         et = enc_expr(pure)
-        f32 = uses_float32(leaf)
-        tol, tol_tok = (TOL32, TOL32_TOK) if f32 else (TOL, TOL_TOK)
+        tol, tol_tok = tolerance_for(pure, np.asarray(xv))
         spec = 'c15.spec_dot %s %s %s %s' % (et, enc_vec(xv), impl[3:], tol_tok) if impl.startswith('ok ') else None
         sig = {'entry': ENTRY[kind], 'shared_operand': True, 'pattern': name}
         run = 'c15.dot %s %s' % (et, enc_vec(xv))
+        tl = {'tol': tol, 'refused': False}
         if kind == 'con':
-            # the model of the code as it is: CoNeighbor arithmetic works in place on the one shared object
-            run = 'c15.shared %s %s %s %s' % (name, enc_mat(leaf[1]), enc_bool(leaf[2]), enc_vec(xv))
+            # the model of the code as it is (CoNeighbor arithmetic works in place on the one shared object, `Op.shared`)
+            # is compared with the implementation by `resolve_in_place`: the known finding F16i is matched only when the
+            # implementation answers exactly as that model (`effect: in-place-result`)
+            tl['in_place_run'] = 'c15.shared %s %s %s %s' % (name, enc_mat(leaf[1]), enc_bool(leaf[2]), enc_vec(xv))
+            tl['in_place_sig'] = {'entry': ENTRY[kind], 'aspect': 'in-place-model', 'pattern': name}
         out.append(Case(('shared', name, et, enc_vec(xv)), sig, run, impl, spec,
-                        leaf[1].nnz > 0, {'shared': name, 'leaf': expr_desc(leaf), 'x': probe_desc(xv)}, canon='vec',
-                        tol={'tol': tol, 'refused': False}))
+                        leaf[1].nnz > 0, {'shared': name, 'leaf': expr_desc(leaf), 'x': probe_desc(xv)}, canon='vec', tol=tl))
     return out
 
 
@@ -1044,16 +1174,18 @@ def in_place_effect(st, role, tree):
     return tree
 
 
-def effect_of(o, st, role, tree):
-    """'in-place-result' when the operand now equals the result of the operation applied to what it denoted (the known
-    in-place family), 'other' for any other change: only the former is matched by the recorded finding."""
-    try:
-        fresh = build(in_place_effect(st, role, tree))
-        x = np.arange(1, o.shape[1] + 1, dtype=float)
-        return 'in-place-result' if np.allclose(np.asarray(o.dot(x), dtype=float), np.asarray(fresh.dot(x), dtype=float),
-                                                rtol=1e-9, atol=1e-9) else 'other'
-    except ERRORS:
-        return 'other'
+def mark_in_place(cases, st, role, tree):
+    """Operand of the known in-place family (F16i): every query carries the run line of the tree the operand denotes after
+    the statement has worked on it in place; `resolve_in_place` compares it with the implementation, query by query."""
+    t2 = in_place_effect(st, role, tree)
+    for c in cases:
+        qs = c.desc.get('qs') if isinstance(c.desc, dict) else None
+        if qs is None or not c.run:
+            continue
+        c.tol = dict(c.tol or {}, in_place_run=query_run_line(t2, qs),
+                     in_place_sig={'entry': c.sig.get('entry'), 'aspect': 'in-place-model', 'reuse': st[0], 'role': role,
+                                   'query': qs['query']})
+    return cases
 
 
 def _con_ids(o, seen=None):
@@ -1080,6 +1212,8 @@ def cases_program(ctx, rng, program, only=None):
         nontriv = nontrivial_expr(tree)
         try:
             o = stmt_apply(st, objs)
+        except ToolFailure:
+            raise
         except ERRORS as ex:
             # the statement is refused: the model must refuse the unfolded expression the same way
             if only is None or only.get('after') == k:
@@ -1112,14 +1246,14 @@ def cases_program(ctx, rng, program, only=None):
             if not in_place_con and (_con_ids(objs[i]) & mutated):
                 continue                           # changed through the in-place CoNeighbor it references
             sig = {'entry': class_name(objs[i]), 'aspect': 'operand-unchanged', 'reuse': st[0], 'role': role}
-            if in_place_con:
-                sig['effect'] = effect_of(objs[i], st, role, trees[i])
+            cs = []
             if only is None:
-                out += cases_for_object(ctx, rng, objs[i], trees[i], sig, dict(desc, checked=i, role=role),
-                                        nontrivial_expr(trees[i]), queries=3)
+                cs = cases_for_object(ctx, rng, objs[i], trees[i], sig, dict(desc, checked=i, role=role),
+                                      nontrivial_expr(trees[i]), queries=3)
             elif only.get('after') == k and only.get('checked') == i and only.get('role', role) == role:
-                out += cases_for_object(ctx, rng, objs[i], trees[i], sig, dict(desc, checked=i, role=role),
-                                        nontrivial_expr(trees[i]), qs_list=[only['qs']])
+                cs = cases_for_object(ctx, rng, objs[i], trees[i], sig, dict(desc, checked=i, role=role),
+                                      nontrivial_expr(trees[i]), qs_list=[only['qs']])
+            out += mark_in_place(cs, st, role, trees[i]) if in_place_con else cs
         if mutated:
             for j, oj in enumerate(objs):
                 if _con_ids(oj) & mutated:
@@ -1148,6 +1282,8 @@ def rand_program(rng, length):
         for st in program:
             try:
                 objs.append(stmt_apply(st, objs))
+            except ToolFailure:
+                raise
             except ERRORS:
                 ok = False
                 break
@@ -1179,12 +1315,7 @@ def rand_program(rng, length):
         if op in ('neg', 'T', 'd2u', 'b2d', 'b2u'):
             program.append((op, i))
         elif op == 'normalize':
-            try:
-                sums = np.asarray(o.dot(np.ones(shape[1])), dtype=float)
-            except ERRORS:
-                sums = np.zeros(0)
-            scale = 1 + float(np.max(np.abs(sums))) if len(sums) else 1.0
-            if np.any((np.abs(sums) > 0) & (np.abs(sums) < 1e-6 * scale)):
+            if has_tiny_row_sum(o):
                 TIE_SKIPPED[0] += 1
                 continue
             program.append((op, i))
@@ -1251,6 +1382,7 @@ def cases_matrix_utils(ctx, rng, a, full=True):
         b.sum_duplicates()
         if b.nnz != a.nnz:
             a = b
+    dts = {'dtype': str(a.dtype)} if str(a.dtype) in BOUNDS else {}
     am = enc_mat(a)
     md = mat_desc(a)
     nt = a.nnz > 0
@@ -1260,18 +1392,19 @@ def cases_matrix_utils(ctx, rng, a, full=True):
         arg = a.copy() if fmt == 'csr' else a.toarray()
         impl = _call(lambda: _ok_mat(sparse.csr_matrix(normalize(arg, p=1)).toarray() if fmt == 'csr' else normalize(arg, p=1)))
         cmd = 'c15.normalize %s 1 -' % am
-        out.append(Case(('normalize', am, 1, fmt), {'entry': 'normalize', 'p': 1, 'format': fmt}, cmd, impl,
+        out.append(Case(('normalize', am, 1, fmt), dict({'entry': 'normalize', 'p': 1, 'format': fmt}, **dts), cmd, impl,
                         _spec_norm1(am, impl), nt,
                         {'f': 'normalize', 'matrix': md, 'p': 1, 'format': fmt}, canon='mat'))
-    sq2 = np.sqrt((a.multiply(a)).dot(np.ones(c))) if c else np.zeros(r)
+    af = a.astype(float)                       # the harness's own arithmetic never runs in a narrow integer type
+    sq2 = np.sqrt((af.multiply(af)).dot(np.ones(c))) if c else np.zeros(r)
     impl = _call(lambda: _ok_mat(normalize(a.copy(), p=2).toarray()))
-    out.append(Case(('normalize', am, 2), {'entry': 'normalize', 'p': 2}, 'c15.normalize %s 2 %s' % (am, enc_vec(sq2)), impl,
+    out.append(Case(('normalize', am, 2), dict({'entry': 'normalize', 'p': 2}, **dts), 'c15.normalize %s 2 %s' % (am, enc_vec(sq2)), impl,
                     _spec_norm2(am, impl), nt, {'f': 'normalize', 'matrix': md, 'p': 2}, canon='mat'))
     impl = _call(lambda: _ok_mat(normalize(a.copy(), p=3).toarray()))
-    out.append(Case(('normalize', am, 3), {'entry': 'normalize', 'p': 3}, 'c15.normalize %s 3 -' % am, impl, None, False,
+    out.append(Case(('normalize', am, 3), dict({'entry': 'normalize', 'p': 3}, **dts), 'c15.normalize %s 3 -' % am, impl, None, False,
                     {'f': 'normalize', 'matrix': md, 'p': 3}))
     # integer / boolean / float32 matrices through normalize and get_norms (same definitions)
-    if a.nnz and np.all(a.data == np.round(a.data)):
+    if a.nnz and np.all(a.data == np.round(a.data)) and str(a.dtype) not in BOUNDS:
         for dt in ('int64', 'bool', 'float32'):
             b = _as_dtype(a, dt)
             bm = enc_mat(b)
@@ -1287,21 +1420,24 @@ def cases_matrix_utils(ctx, rng, a, full=True):
                             tol={'tol': TOL32 if dt == 'float32' else TOL}))
     # get_norms
     impl = _call(lambda: 'ok ' + enc_vec(get_norms(a.copy(), p=1)))
-    out.append(Case(('norms', am, 1), {'entry': 'get_norms', 'p': 1}, 'c15.norms %s 1' % am, impl, None, nt,
+    out.append(Case(('norms', am, 1), dict({'entry': 'get_norms', 'p': 1}, **dts), 'c15.norms %s 1' % am, impl, None, nt,
                     {'f': 'get_norms', 'matrix': md, 'p': 1}, canon='vec'))
     impl = _call(lambda: 'ok ' + enc_vec(get_norms(a.copy(), p=2) ** 2))
-    out.append(Case(('norms', am, 2), {'entry': 'get_norms', 'p': 2}, 'c15.norms %s 2' % am, impl, None, nt,
+    out.append(Case(('norms', am, 2), dict({'entry': 'get_norms', 'p': 2}, **dts), 'c15.norms %s 2' % am, impl, None, nt,
                     {'f': 'get_norms', 'matrix': md, 'p': 2}, canon='vec'))
     # diagonal_pseudo_inverse on the row sums
-    out.append(case_pinv(a.dot(np.ones(c)), nt))
+    out.append(case_pinv(af.dot(np.ones(c)), nt))
     # get_laplacian
     impl = _call(lambda: _ok_mat(sparse.csr_matrix(get_laplacian(a.copy())).toarray()))
     cmd = 'c15.laplacian ' + am
-    out.append(Case(('laplacian', am), {'entry': 'get_laplacian'}, cmd, impl, _spec_lap(am, impl), nt and r == c,
+    out.append(Case(('laplacian', am), dict({'entry': 'get_laplacian'}, **dts), cmd, impl, _spec_lap(am, impl), nt and r == c,
                     {'f': 'get_laplacian', 'matrix': md}, canon='mat'))
     # directed2undirected with the dtype rule
     for weighted in (True, False):
-        for dt in (['float64', 'bool', 'int', 'float32'] if full else [rng.choice(['float64', 'bool', 'int', 'float32'])]):
+        own = str(a.dtype)
+        for dt in ([own, 'bool', 'int', 'float32'] if full else [rng.choice([own, 'bool', 'int', 'float32'])]):
+            if dt == 'float32' and own in BOUNDS:
+                continue                               # 32767 etc. are exact in float32, nothing new; keeps the labels simple
             if dt == 'bool':
                 b = a.astype(bool)
             elif dt == 'int':
@@ -1317,6 +1453,8 @@ def cases_matrix_utils(ctx, rng, a, full=True):
                 return _ok_mat(res.astype(float).toarray()), str(res.dtype)
             try:
                 impl, rdt = f()
+            except ToolFailure:
+                raise
             except ERRORS as ex:
                 impl, rdt = 'err ' + type(ex).__name__, None
             cmd = 'c15.d2u %s %s' % (bm, enc_bool(weighted))
@@ -1326,23 +1464,24 @@ def cases_matrix_utils(ctx, rng, a, full=True):
                             {'f': 'directed2undirected', 'matrix': mat_desc(b), 'weighted': weighted}, canon='mat'))
             if rdt is not None and weighted:
                 kind = {'float64': 'float64', 'int64': 'int', 'int32': 'int', 'bool': 'bool', 'float32': 'float32'}.get(rdt, rdt)
-                out.append(Case(('d2u_dtype', dt, rdt), dict(sig, aspect='dtype'), 'c15.d2u_dtype ' + dt, 'ok ' + kind, None, True,
+                kind = {'int8': 'int', 'int16': 'int', 'uint8': 'int'}.get(kind, kind)     # any integer type: `int`
+                out.append(Case(('d2u_dtype', dt, rdt), dict(sig, aspect='dtype'), 'c15.d2u_dtype ' + ('int' if dt in BOUNDS else dt), 'ok ' + kind, None, True,
                                 {'f': 'directed2undirected', 'matrix': mat_desc(b), 'weighted': weighted, 'aspect': 'dtype'}))
     # bipartite conversions
     impl = _call(lambda: _ok_mat(bipartite2directed(a.copy()).toarray()))
     cmd = 'c15.b2d ' + am
-    out.append(Case(('b2d', am), {'entry': 'bipartite2directed'}, cmd, impl, _spec_def('c15.spec_b2d', am, impl), nt,
+    out.append(Case(('b2d', am), dict({'entry': 'bipartite2directed'}, **dts), cmd, impl, _spec_def('c15.spec_b2d', am, impl), nt,
                     {'f': 'bipartite2directed', 'matrix': md}, canon='mat'))
     impl = _call(lambda: _ok_mat(bipartite2undirected(a.copy()).toarray()))
     cmd = 'c15.b2u ' + am
-    out.append(Case(('b2u', am), {'entry': 'bipartite2undirected'}, cmd, impl, _spec_def('c15.spec_b2u', am, impl), nt,
+    out.append(Case(('b2u', am), dict({'entry': 'bipartite2undirected'}, **dts), cmd, impl, _spec_def('c15.spec_b2u', am, impl), nt,
                     {'f': 'bipartite2undirected', 'matrix': md}, canon='mat'))
     # tf-idf (log external: table log(n_documents / f), f = 1..n_documents)
     import math
     table = [math.log(r / f) for f in range(1, r + 1)]
     impl = _call(lambda: _ok_mat(sparse.csr_matrix(get_tfidf(a.copy())).toarray()))
     cmd = 'c15.tfidf %s %s' % (am, enc_vec(table))
-    out.append(Case(('tfidf', am), {'entry': 'get_tfidf'}, cmd, impl, _spec_def('c15.spec_tfidf', am + ' ' + enc_vec(table), impl), nt,
+    out.append(Case(('tfidf', am), dict({'entry': 'get_tfidf'}, **dts), cmd, impl, _spec_def('c15.spec_tfidf', am + ' ' + enc_vec(table), impl), nt,
                     {'f': 'get_tfidf', 'matrix': md}, canon='mat'))
     return out
 
@@ -1390,6 +1529,59 @@ def cases_csr_utils(ctx, rng, a, full=True):
     return out
 
 
+FORMATS = ('csc', 'coo', 'lil')
+
+
+def cases_formats(ctx, rng, a):
+    """The same matrix as a csc / coo / lil matrix: the six classes (check_format / scipy convert), and on csc / coo the
+    utilities that only use scipy's matrix algebra (normalize, get_norms, get_laplacian, get_weights).  get_neighbors /
+    get_degrees read the CSR arrays and the remaining utilities name csr_matrix in their signature: csr only (ASSUMPTIONS)."""
+    from sknetwork.linalg import normalize, get_norms
+    from sknetwork.linalg.laplacian import get_laplacian
+    from sknetwork.utils import get_weights
+    out = []
+    r, c = a.shape
+    am = enc_mat(a)
+    g = enc_csr_arrays(a)
+    nt = a.nnz > 0
+    for fmt in FORMATS:
+        b = a.asformat(fmt)
+        leaves = [('slr', b, [(np.ones(r), np.arange(1., c + 1))], False), ('reg', b, 1), ('nrm', b, 0.5), ('con', b, True),
+                  ('con', b, False)]
+        if r == c:
+            leaves += [('lap', b, 1, False), ('pol', b, [1.0, -1.0, 2.0])]
+        for leaf in leaves:
+            for cse in cases_for_expr(None, rng, leaf, full=False):
+                cse.sig = dict(cse.sig, format=fmt)
+                out.append(cse)
+        ctx.count('format:' + fmt)
+        if fmt == 'lil':
+            continue
+        md = mat_desc(b)
+        impl = _call(lambda: _ok_mat(sparse.csr_matrix(normalize(b.copy(), p=1)).toarray()))
+        out.append(Case(('normalize', am, 1, fmt), {'entry': 'normalize', 'p': 1, 'format': fmt}, 'c15.normalize %s 1 -' % am, impl,
+                        _spec_norm1(am, impl), nt, {'f': 'format-utils', 'matrix': md}, canon='mat'))
+        b1 = b.copy()
+        impl = _call(lambda: 'ok ' + enc_vec(get_norms(b1, p=1)))                     # the argument itself, not a copy (F16h)
+        out.append(Case(('norms', am, 1, fmt), {'entry': 'get_norms', 'p': 1, 'format': fmt}, 'c15.norms %s 1' % am, impl, None, nt,
+                        {'f': 'format-utils', 'matrix': md}, canon='vec'))
+        if (b1 != b).nnz or b1.dtype != b.dtype:
+            ctx.spec_fail({'entry': 'get_norms', 'p': 1, 'format': fmt, 'aspect': 'input-unchanged'}, {'f': 'format-utils', 'matrix': md},
+                          {'what': 'get_norms modified its argument', 'after': mat_desc(b1)})
+        impl = _call(lambda: 'ok ' + enc_vec(get_norms(b.copy(), p=2) ** 2))
+        out.append(Case(('norms', am, 2, fmt), {'entry': 'get_norms', 'p': 2, 'format': fmt}, 'c15.norms %s 2' % am, impl, None, nt,
+                        {'f': 'format-utils', 'matrix': md}, canon='vec'))
+        impl = _call(lambda: _ok_mat(sparse.csr_matrix(get_laplacian(b.copy())).toarray()))
+        out.append(Case(('laplacian', am, fmt), {'entry': 'get_laplacian', 'format': fmt}, 'c15.laplacian ' + am, impl,
+                        _spec_lap(am, impl), nt and r == c, {'f': 'format-utils', 'matrix': md}, canon='mat'))
+        for tr in (False, True):
+            impl = _call(lambda: 'ok ' + enc_vec(get_weights(b, transpose=tr)))
+            spec = 'c15.spec_weights %s %s %s' % (g, enc_bool(tr), impl[3:]) if impl.startswith('ok ') else None
+            out.append(Case(('weights', g, tr, fmt), {'entry': 'get_weights', 'transpose': tr, 'format': fmt},
+                            'c15.weights %s %s' % (g, enc_bool(tr)), impl, spec, nt, {'f': 'format-utils', 'matrix': md}, canon='vec'))
+    return out
+
+
 def cases_membership(ctx, rng, labels, n_labels):
     from sknetwork.utils.membership import get_membership, from_membership
     out = []
@@ -1402,7 +1594,7 @@ def cases_membership(ctx, rng, labels, n_labels):
         m = get_membership(arr, n_labels=n_labels)
         return 'ok ' + enc_csr_arrays(m.astype(float))
     impl = _call(f)
-    spec = 'c15.spec_membership %s %s' % (lt, impl[3:]) if impl.startswith('ok ') else None
+    spec = 'c15.spec_membership %s %s %s' % (lt, nl, impl[3:]) if impl.startswith('ok ') else None
     out.append(Case(('membership', lt, nl), {'entry': 'get_membership', 'n_labels': n_labels is not None},
                     'c15.membership %s %s' % (lt, nl), impl, spec, nt,
                     {'f': 'get_membership', 'labels': list(labels), 'n_labels': n_labels}, canon='csr'))
@@ -1567,7 +1759,40 @@ def _topk_tie(c, mt, it):
     return sorted(scores[i] for i in a) == sorted(scores[i] for i in b)
 
 
+def resolve_in_place(ctx, cases):
+    """Known family F16i (CoNeighbor arithmetic in place).  A marked case has the run / spec line of the PURE tree (the
+    property) and, aside, the run line of the IN-PLACE model.  Both model answers are asked here, per case and per query:
+      * the implementation answers as the pure tree: nothing to report for this case;
+      * else the signature gets `effect: in-place-result` iff the implementation answers exactly as the in-place model
+        (only that is matched by the recorded findings; a raise, garbage, any other change is `effect: other` and reported);
+      * and a run-only case compares the in-place model with the implementation under a signature of its own, which no
+        recorded finding matches: if the in-place model stops describing the code, that is a disagreement whatever the
+        outcome of the spec line."""
+    marked = [c for c in cases if isinstance(c.tol, dict) and c.tol.get('in_place_run') and c.run]
+    if not marked:
+        return cases
+    lines = []
+    for c in marked:
+        lines += [c.run, c.tol['in_place_run']]
+    answers = ctx.lean(lines)
+    extra = []
+    for k, c in enumerate(marked):
+        pure, inpl = answers[2 * k], answers[2 * k + 1]
+        if pure.startswith('unknown-cmd') or inpl.startswith('unknown-cmd') or 'bad-args' in (pure, inpl):
+            raise ToolFailure('driver rejected %r / %r' % (c.run, c.tol['in_place_run']))
+        if pure == c.impl or _same(c, pure, c.impl, True):
+            c.sig = dict(c.sig, effect='none')
+            continue
+        eq = inpl == c.impl or _same(c, inpl, c.impl, True)
+        c.sig = dict(c.sig, effect='in-place-result' if eq else 'other')
+        extra.append(Case(('in-place-model',) + tuple(c.key if isinstance(c.key, tuple) else (c.key,)), c.tol['in_place_sig'],
+                          c.tol['in_place_run'], c.impl, None, c.nontrivial, c.desc, canon=c.canon,
+                          tol={k2: v for k2, v in c.tol.items() if k2 not in ('in_place_run', 'in_place_sig')}))
+    return cases + extra
+
+
 def evaluate(ctx, cases):
+    cases = resolve_in_place(ctx, list(cases))
     for c in cases:
         if c.spec is None and c.run and str(c.impl).startswith('err'):
             # the implementation refused: justified only if the model refuses the same request
@@ -1714,10 +1939,21 @@ def build_cases(ctx):
     for i in range(60 if quick else 900):
         r, c = (rand_dim(rng),) * 2 if rng.random() < 0.6 else (rand_dim(rng), rand_dim(rng))
         mats.append(rand_matrix(rng, r, c, dtype='float64'))
+    mats.append(sparse.csr_matrix(np.array([[-128, 1], [100, 100]], dtype=np.int8)))
+    mats.append(sparse.csr_matrix(np.array([[200, 0], [3, 4]], dtype=np.uint8)))
+    for i in range(15 if quick else 200):
+        r, c = (rand_dim(rng),) * 2 if rng.random() < 0.6 else (rand_dim(rng), rand_dim(rng))
+        mats.append(rand_matrix(rng, r, c, dtype=rng.choice(sorted(BOUNDS))))
     for a in mats:
         cases += cases_matrix_utils(ctx, rng, a, full=not quick or rng.random() < 0.3)
         cases += cases_csr_utils(ctx, rng, a, full=not quick or rng.random() < 0.3)
         ctx.count('utils:matrix')
+    # (d') the same entry points on csc / coo / lil matrices
+    for i in range(12 if quick else 150):
+        r, c = (rand_dim(rng),) * 2 if rng.random() < 0.6 else (rand_dim(rng), rand_dim(rng))
+        a = rand_matrix(rng, r, c, mode=rng.choice(['nonneg', 'signed', 'binary']), dtype=rng.choice(['float64', 'float64', 'int64', 'bool']))
+        if a.nnz:
+            cases += cases_formats(ctx, rng, a)
     # (e) labels
     label_sets = [[0], [-1], [0, 0], [1, 0], [-1, -1], [-2, -5], [2, -1, 2], [0, 3, 3, -1, 1], []]
     for i in range(40 if quick else 800):
@@ -1845,6 +2081,7 @@ def corpus_cases(ctx):
 
 def run(ctx):
     TIE_SKIPPED[0] = 0
+    tie_skip_selftest(ctx)
     dispatch_obligations(ctx)
     cases = corpus_cases(ctx) + build_cases(ctx)
     ctx.count('tie-skipped:normalize-of-inexact-zero-row', TIE_SKIPPED[0])
@@ -1890,7 +2127,10 @@ def search(ctx, pending):
         return found[:5]
     # (b) the run itself already produced failing inputs for the same entry points: they are the failing inputs
     entries = {str(sig.get('entry')) for _, sig, _ in pending}
-    same = [f for f in getattr(ctx, 'spec_failures', []) if str(f['sig'].get('entry')) in entries]
+    from vlib.core import match_finding, load_findings
+    recorded = load_findings()
+    same = [f for f in getattr(ctx, 'spec_failures', [])
+            if str(f['sig'].get('entry')) in entries and match_finding(recorded, 'C15', f['sig']) is None]
     if same:
         return [{'sig': f['sig'], 'case': f['case'], 'detail': f['detail']} for f in same[:5]]
     rng = ctx.rng
@@ -1958,6 +2198,9 @@ def cases_from_payload(ctx, case, rng=None):
     if f in ('normalize', 'get_norms', 'get_laplacian', 'directed2undirected',
              'bipartite2directed', 'bipartite2undirected', 'get_tfidf') and 'matrix' in case:
         return cases_matrix_utils(ctx, rng, mat_from_desc(case['matrix']), full=True)
+    if f == 'format-utils':
+        m_ = mat_from_desc(case['matrix'])
+        return [c_ for c_ in cases_formats(ctx, rng, m_.tocsr()) if c_.sig.get('format') == m_.format]
     if f in ('get_neighbors', 'get_degrees', 'get_weights'):
         return cases_csr_utils(ctx, rng, mat_from_desc(case['matrix']), full=True)
     if f in ('get_membership', 'roundtrip'):
